@@ -179,14 +179,20 @@ func VString(v *ast.Value) string { panic("ghost") }
 //@ props C05 C03
 //@ returns res, err
 //@ requires a != nil && b != nil
+//@ assumes[unique-in] uniqueNamesIn(a.Fields)
 //@ ensures[res] err == nil ==> res != nil && fresh(res)
-//@ ensures[overlap-rejected] err == nil ==> forall(i, 0, len(b.Fields), !hasprefix(b.Fields[i].Name, "__") && !nodeEntry(b.Fields[i]) ==> forall(j, 0, len(a.Fields), a.Fields[j].Name != b.Fields[i].Name)) @props C05
+// (the one root field several services may declare is the Relay entry point, declared as such by both: a field that is
+// merely called node on one side is an ordinary root field, B34)
+//@ ensures[overlap-rejected] err == nil ==> forall(k, 0, len(b.Fields), !hasprefix(b.Fields[k].Name, "__") ==> forall(j, 0, len(a.Fields), a.Fields[j].Name == b.Fields[k].Name ==> nodeEntry(b.Fields[k]) && nodeEntry(a.Fields[j]))) @using checked @props C05
 //@ ensures[fields-kept] err == nil ==> len(res.Fields) >= len(a.Fields) && forall(j, 0, len(a.Fields), res.Fields[j] == a.Fields[j]) @props C03
 //@ ensures[b-kept] err == nil ==> forall(i, 0, len(b.Fields), !hasprefix(b.Fields[i].Name, "__") ==> exists(j, 0, len(res.Fields), res.Fields[j].Name == b.Fields[i].Name)) @using b-kept @props C03
 //@ loop 0 invariant[b-kept] forall(i, 0, it, !hasprefix(b.Fields[i].Name, "__") ==> exists(j, 0, len(fields), fields[j].Name == b.Fields[i].Name)) @using b-kept
 //@ modifies-assumed fresh, elems(*ast.FieldDefinition)
 //@ loop 0 invariant[prefix] len(fields) >= len(a.Fields) && forall(j, 0, len(a.Fields), fields[j] == a.Fields[j]) && ((base(fields) == base(a.Fields) && off(fields) == off(a.Fields)) || fresh(fields))
-//@ loop 0 invariant[checked] forall(i, 0, it, !hasprefix(b.Fields[i].Name, "__") && !nodeEntry(b.Fields[i]) ==> forall(j, 0, len(a.Fields), a.Fields[j].Name != b.Fields[i].Name)) @using checked, prefix
+// (appending to a list that starts as a.Fields may write into a's spare capacity, never into its first len(a.Fields) cells)
+//@ loop 0 invariant[a-cells] forall(j, 0, len(a.Fields), a.Fields[j] == old(a.Fields[j])) @using a-cells, prefix
+// (the bound variables are not called i: the ForName model's own variable is, and has to be opened at j)
+//@ loop 0 invariant[checked] forall(k, 0, it, !hasprefix(b.Fields[k].Name, "__") ==> forall(j, 0, len(a.Fields), a.Fields[j].Name == b.Fields[k].Name ==> nodeEntry(b.Fields[k]) && nodeEntry(a.Fields[j]))) @using checked, prefix, spec, unique-in, a-cells
 //@ end
 
 // TString: what (*ast.Type).String returns (the full type reference, e.g. [Int!]!).
